@@ -12,7 +12,8 @@ Import ListNotations.
 From VF Require Export common.Json common.Res C03.Model.
 Local Open Scope N_scope.
 
-Inductive obs := OOk | OErr (stage : N) | OPanic | OTimeout.
+Inductive obs := OOk | OErr (stage : N) | OPanic | OTimeout
+| ONoCrash.   (* protocol handlers work in goroutines of their own: only "the agent survived" is observable *)
 
 Inductive input :=
 | I1 (i : e1_in)                       (* jose.Deserialize + JWEDecrypt.Decrypt *)
@@ -26,7 +27,14 @@ Inductive input :=
 | I6 (point : bool) (i : e6_in)        (* kmsdidkey.EncryptionPubKeyFromDIDKey *)
 | I6f (i : e6_in)                      (* fingerprint.PubKeyFromDIDKey *)
 | I8s (inbox : bool) (thread : bool)   (* message pickup status-request *)
-| I8b (held : nat) (batch : Z).        (* message pickup batch-pickup *)
+| I8b (held : nat) (batch : Z)         (* message pickup batch-pickup *)
+| I7d (d : option (list json))         (* sdjwt/common.GetDisclosureClaims of one disclosure *)
+| I7dig (claims : list (string * json)) (observed : list string)   (* GetDisclosureDigests and what it returned *)
+| I7cnf (claims : list (string * json))                            (* GetCNF *)
+| I9inv (legacy has_did : bool) (keys : list string)   (* inbound invitation of DID Exchange / legacy connection *)
+| I9resp (sig : option sigview)        (* legacy connection response once the invitee has sent its request *)
+| I9keys (keys : list (bool * bool * bool * bool))   (* legacy request: recipient keys of the IndyAgent service *)
+| I9meta (typed : list bool).          (* introduce: recipients seen by a repeated request *)
 
 Record case := { c_in : input; c_obs : obs }.
 
@@ -36,6 +44,11 @@ Fixpoint unhex (s : string) : list N :=
   match s with String a (String b r) => (hexv a * 16 + hexv b) :: unhex r | _ => [] end.
 
 Definition all_ok : nat -> bool := fun _ => true.
+
+Fixpoint is_ascii (s : string) : bool :=
+  match s with EmptyString => true | String a r => (N_of_ascii a <? 128) && is_ascii r end.
+Definition subset (a b : list string) : bool := forallb (fun x => existsb (String.eqb x) b) a.
+Definition same_set (a b : list string) : bool := subset a b && subset b a.
 
 Definition run (v : variant) (i : input) : gout :=
   match i with
@@ -51,6 +64,19 @@ Definition run (v : variant) (i : input) : gout :=
   | I6f x => E6f v x
   | I8s ib t => E8_status v ib (if t then Some tt else None)
   | I8b h b => E8_batch v (repeat 0 h) b
+  | I7d d => E7_disclosure d
+  | I7dig c observed =>
+      match E7_digests c with
+      | Ok l => if same_set l observed then GPass else GDiverge      (* a different digest set: disagreement *)
+      | _ => GRej 78
+      end
+  | I7cnf c => E7_cnf c
+  | I9inv legacy d keys =>
+      E9_invitation_key v d keys >>>
+      (if legacy && negb d then E9_pack_keys v (map is_ascii (firstn 1 keys)) else GPass)
+  | I9resp sig => E9_legacy_response v [(false, true)] sig true
+  | I9keys keys => E9_convert_keys v keys
+  | I9meta typed => E9_meta_recipients v typed
   end.
 
 Definition agrees (g : gout) (o : obs) : bool :=
@@ -58,6 +84,7 @@ Definition agrees (g : gout) (o : obs) : bool :=
   | GPass, OOk => true
   | GPass, OErr t => t =? 0
   | GRej s, OErr t => (t =? s) || (t =? 0)
+  | GPass, ONoCrash | GRej _, ONoCrash => true
   | _, _ => false
   end.
 
